@@ -28,6 +28,8 @@ def Req.name : Req → String
 /-- what the server does with the request at a given position (1-based, in sending order) -/
 inductive Fault where
   | rpcError      -- replies with an rpc-error of severity error
+  | errWarnOk     -- replies with an rpc-error of severity error, one of severity warning, then <ok/>
+  | errCount      -- replies with rpc-errors and (for a load) a <load-error-count>, no <ok/>
   | malformed     -- replies with bytes that do not parse
   | wrongId       -- replies with a message-id that matches no request
   | closeBefore   -- closes the connection instead of replying
